@@ -70,6 +70,9 @@ def run(F, R):
     # counters and the folded completion test (C03.E5 / E9)
     from .C03 import wrap_rule
     wrap_rule(F, R, 'S9')
+    # S12: lengths and ids of completions come from the used-ring slot of the trusted index; a refused poll consumes nothing (C03.E1 / E2)
+    from .C03 import pop_rule
+    pop_rule(F, R, 'S12')
 
 
 def sizeofs(t):
